@@ -1,6 +1,7 @@
 package main
 
 import (
+	"fmt"
 	"sync"
 	"go/ast"
 	"go/parser"
@@ -213,4 +214,16 @@ func (eng *Engine) markAxiom(name, text string) {
 	axMu.Lock()
 	eng.usedAxioms[name] = text
 	axMu.Unlock()
+}
+
+func fmtAny(v any) string { return fmt.Sprint(v) }
+
+// isSentinelError: a package-level variable of type error named like a sentinel (EOF, ErrX, errX).
+func isSentinelError(g *ssa.Global) bool {
+	pt, ok := g.Type().(*types.Pointer)
+	if !ok || !types.IsInterface(pt.Elem()) || pt.Elem().String() != "error" {
+		return false
+	}
+	n := g.Name()
+	return n == "EOF" || (len(n) > 3 && (n[:3] == "Err" || n[:3] == "err"))
 }
